@@ -29,23 +29,25 @@ FitsIn(n, r) == n >= 0 /\ n <= r
 
 BoundedKinds == {"buffer", "pedantic"}           \* Ensure() really checks
 StreamKinds == {"sstream", "fstream"}
-ReaderKinds == {"buffer", "pedantic", "sstream", "fstream", "fd"}
+ReaderKinds == {"buffer", "pedantic", "sstream", "fstream", "fd", "fdbad"}
+\* "fdbad": FdReader on a descriptor that cannot be read (EBADF): no byte is ever delivered, every transfer of at
+\* least one byte fails with IOError
+IOErr == 16
 WriterKinds == {"buffer", "pedantic", "constexpr", "sstream", "fd", "lstream", "fdfull"}
 \* "lstream": StreamWriter over an output stream whose buffer takes exactly cap bytes; "fdfull": FdWriter on a
 \* descriptor that takes nothing (ENOSPC) - the error paths of the unchecked writers
-IOErr == 16
 Unprepared == {"sstream", "fd", "lstream", "fdfull"}      \* Prepare() checks nothing
 FailCode(kind) == IF kind = "lstream" THEN StreamErr ELSE IF kind = "fdfull" THEN IOErr ELSE WriteLimit
 CheckedWriters == {"pedantic", "constexpr"}
 
 \* the code a reader reports when its data runs out
-ExhaustCode(kind) == IF kind \in StreamKinds THEN StreamErr ELSE ReadLimit
+ExhaustCode(kind) == IF kind \in StreamKinds THEN StreamErr ELSE IF kind = "fdbad" THEN IOErr ELSE ReadLimit
 
 NewReader(kind, src, bounded, lim, fk, fe) ==
   [kind |-> kind, src |-> src, pos |-> 0, b |-> bounded, lim |-> lim, idx |-> 0,
    fk |-> fk, fe |-> fe, nc |-> 0, dead |-> FALSE]
 
-Remaining(r) == Len(r.src) - r.pos
+Remaining(r) == IF r.kind = "fdbad" THEN 0 ELSE Len(r.src) - r.pos
 
 (* One call on the wrapped (library or harness-faulted) reader.            *)
 (* Result [r |-> state, st |-> status, out |-> bytes delivered].            *)
